@@ -359,6 +359,13 @@ def formOut (root : Str) (lists : List Str) (rows : List Cells) (settings : Cell
           .ok { items := items, inst := instanceOf root all, binds := bindPathsL [root] all,
                 body := bodyPathsL [root] items, ctl := bodyCtlL [root] items }
 
+/-- a `save_to` row is, for the element tree, the question of its type with one more bind attribute
+    (`bind::entities:saveto`): the cell is renamed so that `classify` reads the row as a plain question with a
+    bind.  Whether the cell is *allowed* (entity declaration present, not inside a repeat, not on a group, valid
+    property name: `validate_entity_saveto`) is decided by `Pyxv.Entities.walk`. -/
+def plainSaveto (r : Cells) : Cells :=
+  r.map fun kv => if kv.1 = "bind::entities:saveto".toList then ("bind::saveto".toList, kv.2) else kv
+
 /-! ### the same pipeline on explicitly numbered rows
 
 `Pyxv.TableList.expand` inserts generated rows (table-list label note, table-list header select) that carry
